@@ -69,6 +69,8 @@ ORDS_INVALID = [0, 3, -3, "bad"]
 
 
 def ord_wire(o):
+    """the model's `Ord` of a Python `ord` argument.  The code compares with `==` / `in`, so every number equal to an
+    integer (1.0, True, np.int64(2), 2+0j) is that integer; a non-integral number is no valid order ("other")"""
     if o is None:
         return "none"
     if isinstance(o, str):
@@ -77,7 +79,10 @@ def ord_wire(o):
         return "inf"
     if o == -np.inf:
         return "-inf"
-    return int(o)
+    c = complex(o)
+    if c.imag == 0 and float(c.real).is_integer():
+        return int(c.real)
+    return "other"
 
 
 def ord_json(o):
@@ -784,6 +789,13 @@ def check_diagnorm(ctx, model, case):
     got = _scalar(r[1])
     if got is None or not _rel(got, b2f(m[1]), 16, 1e-9):
         ctx.disagree("estim.diagnorm", case, got if got is not None else str(r[1]), b2f(m[1]), oracle=oracle)
+        return
+    if case["ord"] in (2, -2, "nuc"):
+        # the closed form against `svNorm` on the singular values |d| of the diagonal matrix
+        ms = model.call("svnorm", ord=case["ord"], s=fs2b(np.abs(full)))
+        ctx.count("diagnorm:vs-singular-values")
+        if ms is None or not _rel(got, b2f(ms), 16, 1e-9):
+            ctx.disagree("estim.diagnorm.sv", case, got, None if ms is None else b2f(ms), oracle=oracle)
 
 
 def check_sidnorm(ctx, model, case):
@@ -824,7 +836,12 @@ def check_matnorm(ctx, model, M):
         if mm is not None and not _rel(got, b2f(mm), 16, 1e-9):
             ctx.disagree("estim.matnorm", case, got, b2f(mm))
         if mm is None:
-            ctx.count("matnorm:svd-orders(numpy only)")
+            # orders computed from the singular values: the SVD itself is the contract (numpy), `svNorm` the model
+            sv = np.linalg.svd(np.asarray(M), compute_uv=False)
+            ms = model.call("svnorm", ord=ord_wire(o), s=fs2b(sv))
+            ctx.count("matnorm:svd-orders(model on numpy's singular values)")
+            if ms is None or not _rel(got, b2f(ms), 16, 1e-9):
+                ctx.disagree("estim.matnorm.sv", {**case, "singular_values": sv.tolist()}, got, None if ms is None else b2f(ms))
     # vector norms along an axis / keepdims are forwarded unchanged (numpy is the reference)
     for axis in (0, 1):
         for o in (None, 1, 2, np.inf):
@@ -837,6 +854,45 @@ def check_matnorm(ctx, model, M):
                     ctx.violation({"kind": "failing-input", "case": {"what": "matnorm-axis", "M": str(np.asarray(M).tolist()), "ord": ord_wire(o), "axis": axis, "keepdims": keep},
                                    "failing": {"why": "MatrixOperator.norm(axis=...) differs from numpy", "got": got.tolist(), "numpy": want.tolist()}}, True,
                                   "estim.matnorm: property fails on the implementation")
+
+
+ORD_VARIANTS = [(1.0, 1), (2.0, 2), (-1.0, -1), (-2.0, -2), (True, 1), (np.int64(2), 2), (np.float32(1.0), 1), (2 + 0j, 2),
+                (float("inf"), np.inf), (np.float64(-np.inf), -np.inf), (1.5, None), (0.0, None), (False, None)]
+
+
+def check_ord_variants(ctx, model):
+    """`ord` given as a float / bool / numpy scalar / complex equal to a valid order: the code compares with `==`, so the result
+    must be that of the integer order (Diagonal, ScaledIdentity, MatrixOperator); non-integral or zero values are rejected by
+    Diagonal and ScaledIdentity (`ValueError`; MatrixOperator forwards to jnp.linalg.norm)"""
+    import scico.numpy as snp
+    from scico.linop import Diagonal, MatrixOperator, ScaledIdentity
+
+    d = np.array([1.0, -3.0, 2.0])
+    Mm = np.array([[1.0, 2.0], [3.0, -4.0], [0.0, 1.0]])
+    ops = [("diag", Diagonal(snp.array(d)), lambda w: _model(model, "diagnorm", ord=w, d=fs2b(d), square=True)),
+           ("sid", ScaledIdentity(-2.0, (3,), input_dtype=np.float64), lambda w: _model(model, "sidnorm", ord=w, ac=f2b(2.0), N=3)),
+           ("mat", MatrixOperator(snp.array(Mm)), None)]
+    for o, canon in ORD_VARIANTS:
+        w = ord_wire(o)
+        for name, op, mfn in ops:
+            case = {"what": "ord-variant", "op": name, "ord": repr(o), "canonical": None if canon is None else ord_wire(canon)}
+            ctx.case(case, f"ordvariant:{name}:{o!r}")
+            ctx.count(f"ord-variant:{'valid' if canon is not None else 'invalid'}")
+            r = _impl(lambda: op.norm(o))
+            if canon is None:
+                if name != "mat" and not (r[0] == "err" and r[1] == "value"):
+                    ctx.violation({"kind": "failing-input", "case": case, "failing": {"why": "a number that equals no valid order is accepted", "got": str(r)}}, True,
+                                  "estim.ordvariant: property fails on the implementation")
+                continue
+            rc = _impl(lambda: op.norm(canon))
+            if r[0] != "ok" or rc[0] != "ok" or _scalar(r[1]) != _scalar(rc[1]):
+                ctx.violation({"kind": "failing-input", "case": case, "failing": {"why": "ord equal (==) to a valid order gives a different result", "got": str(r), "canonical": str(rc)}}, True,
+                              "estim.ordvariant: property fails on the implementation")
+                continue
+            if mfn is not None:
+                m = mfn(w)
+                if m[0] != "ok" or not _rel(_scalar(r[1]), b2f(m[1]), 16, 1e-9):
+                    ctx.disagree("estim.ordvariant", case, _scalar(r[1]), str(m))
 
 
 def diag_cases(rng, n_random):
@@ -1026,6 +1082,8 @@ def correspond(ctx, model):
             M = M + 1j * common.dyadic(rng, (m, n), bits=2, scale=3.0)
         check_matnorm(ctx, model, M)
     check_matnorm(ctx, model, np.diag([1.0, -3.0, 2.0]))
+    check_matnorm(ctx, model, np.array([[3.0, 4.0]]))  # wide: one singular value, ord=-2 is 5 (not the 0 of A^H A)
+    check_ord_variants(ctx, model)
 
 
 def witness_zero_operator():
